@@ -757,6 +757,27 @@ def _enumerate_index_bound(d):
     return None
 
 
+def _array_len(body, x):
+    """N when x is (a reference / unsizing of) a local or parameter of array type [T; N]."""
+    x = _strip(x)
+    name, idx = None, None
+    if isinstance(x, tuple) and x:
+        if x[0] == "multi" and len(x) > 2:
+            name = x[2]
+        elif x[0] in ("local", "param") and len(x) > 2:
+            idx, name = x[1], x[2]
+    cands = []
+    if idx is not None and 0 <= idx < len(body.locals):
+        cands.append(body.locals[idx]["ty"])
+    if name:
+        cands += [loc["ty"] for loc in body.locals if loc.get("name") == name]
+    for ty in cands:
+        m = re.match(r"^&?(mut )?\[[^;\]]+; (\d+)\]$", (ty or "").strip())
+        if m:
+            return int(m.group(2))
+    return None
+
+
 def _range_of(prog, body, d, depth=0, facts=None):
     """Interval [lo, hi] of an integer description, or None. Small constant evaluator."""
     if d is None or depth > 8 or not isinstance(d, tuple):
@@ -819,6 +840,9 @@ def _range_of(prog, body, d, depth=0, facts=None):
             return None
         if re.search(r"::from$|::into$", name) and d[2]:
             return _range_of(prog, body, d[2][0], depth + 1, facts)
+        if name.endswith("::len") and d[2] and body is not None:
+            n = _array_len(body, d[2][0])
+            return (n, n) if n is not None else None
         if name.endswith("::len") or name.endswith("::count"):
             return None
         if re.search(r"char::methods::<impl char>::to_digit$", name):
